@@ -9,7 +9,7 @@ CONSTANTS
   Workers = {1, 2, 3}
   RowCls = {"one", "two", "three"}
   Errs = {"none"}
-  NRows = 3 Rotate = TRUE RotK = 3
+  NRows = 3 Rotate = TRUE RotK = 2
   AsIs_Remainder1Only = FALSE AsIs_ChargeDefaultName = TRUE
   Mut_KeepSingleNaN = FALSE Mut_CaseSensitive = FALSE Mut_ZeroIsTarget = FALSE Mut_KeyFileOrder = FALSE
 INVARIANT InputsInDomain
